@@ -188,7 +188,7 @@ Section Sdm.
     end.
 
   Definition packer (m : metric) (ops : list sop) (atoms : list satom) (idx : list Z) (needs : list need) (with_q : bool) : list grown :=
-    let shown0 := omap (fun a => if negb with_q && sa_qpeak a then None else Some (sa_part a, (sa_x a, sa_y a, sa_z a))) atoms in
+    let shown0 := omap (fun a => if sa_qpeak a then None else Some (sa_part a, (sa_x a, sa_y a, sa_z a))) atoms in
     snd (fold_left (fun st nd => fold_left (pack_one m ops with_q idx nd) (number_from 0 atoms) st) needs (shown0, [])).
 
   (* Shelxfile.grow() *)
